@@ -640,6 +640,13 @@ class FTreeGetState(CExec):
 
 class FStateAny(CExec):
     family = "F-STATE"
+    ASSUMES = [
+        "F-STATE: PyTuple_New(n) returns NULL or a new tuple of n slots overlapping no other tuple / vector; the number "
+        "constructors return NULL or py_number_of(argument); Py_BuildValue('OO' / '(O)') builds the 2- / 1-tuple of its arguments; "
+        "PyArg_ParseTuple('O|O') stores the first element and, if present, the second; PyTuple_Size is the tuple's length",
+        "F-STATE: after the activation no callee touches the leaf's fields, its vectors or the tuple being filled / read (A4, A4b: "
+        "destructors run by DECREFs included); callees do not retain pointers to the caller's locals",
+        "F-STATE: _bucket_setstate / _set_setstate: object-keyed, object-valued unit only (integer conversions: F-CONV); len >= 0"]
 
     @classmethod
     def applies(cls, tu, fn):
